@@ -385,6 +385,8 @@ class Res:
 CBMC_BASE = ["--no-malloc-may-fail", "--unwinding-assertions", "--drop-unused-functions",
              "--no-signed-overflow-check", "--no-undefined-shift-check", "--json-ui", "--verbosity", "8",
              "--object-bits", "12"]
+if os.environ.get("VF_FIELD_SENS"):
+    CBMC_BASE += ["--max-field-sensitivity-array-size", os.environ["VF_FIELD_SENS"]]
 
 
 def defs_args(defs):
